@@ -68,7 +68,7 @@ def cores(run, m, F, E):
         n += 1
         I, outs, entry = run_core(m, F, E, L, f)
         s = entry['size']
-        sign_p, bound_p, bound_u, ret_p, len_p = [], [], [], [], []
+        sign_p, bound_p, bound_u, ret_p, len_p, len_u = [], [], [], [], [], []
         nret = 0
         for o in outs:
             s2 = o.st
@@ -99,9 +99,13 @@ def cores(run, m, F, E):
             rem = [a for a in s2.rng if isinstance(a, tuple) and a[0] == 'urem' and a[1] == s and a[2] == Lin.const(k)]
             if s2.is_eq0(v + 1) is True:
                 continue                        # rejection
-            # success: the length test has passed on this path
+            # success: the length test has passed on this path (whatever form it took: %, &, a subtraction of the doubled half ...)
             if not rem or s2.is_eq0(Lin.atom(rem[0])) is not True:
-                len_p.append('returns a length although the input size need not be a multiple of %d' % k)
+                env = s2.find_model([s], lambda vv, k=k: vv[0] % k != 0)
+                if env is not None:
+                    len_p.append('returns a length although the input size need not be a multiple of %d; witness %s' % (k, own.fmt_env(env)))
+                else:
+                    len_u.append('a success path on which the size is not decided to be a multiple of %d' % k)
             if not stores and s2.is_eq0(v) is not True and not any(e[0] == 'widen' for e in s2.events):
                 ret_p.append(('returns %r without storing anything' % (v,), s2))
         # contiguity: in an arbitrary iteration the stores start at the output cursor and the cursor advances by their number
@@ -128,7 +132,8 @@ def cores(run, m, F, E):
         for (msg, s2) in ret_p:
             ret_msgs.append(msg)
         run.ob('R15.1', short(f.dem, 60), not sign_p, sign_p[0] if sign_p else 'every table value is known non-negative where it is used', disc=kind, loc=fn_loc(f))
-        run.ob('R15.2', short(f.dem, 60), not len_p, len_p[0] if len_p else 'success paths have size %% %d == 0 (%d returning paths)' % (nin, nret), disc=kind, loc=fn_loc(f))
+        run.ob('R15.2', short(f.dem, 60), False if len_p else (None if len_u else True), len_p[0] if len_p else (len_u[0] if len_u else
+               'success paths have size %% %d == 0 (%d returning paths)' % (nin, nret)), disc=kind, loc=fn_loc(f))
         if bound_p:
             run.ob('R15.3', short(f.dem, 60), False, bound_p[0], disc=kind + ' bounds', loc=fn_loc(f))
         elif bound_u:
@@ -471,6 +476,8 @@ def tail_placement(run, m, F, E):
         st = State()
         this, ret, entry = string_scene(I, st, L, 'small', with_ret=False)
         ok = st.assume_eq0(entry['size'] - len(pat))
+        # the size is a literal in this scene (not a symbol known to equal one): whatever arithmetic the length test uses folds
+        st.objs[this].cells[L.size_off] = (8, IntV(64, Lin.const(len(pat)), 'u'))
         sto = entry['storage']
         units = []
         for k, c in enumerate(pat):
